@@ -272,7 +272,7 @@ def run(facts, tier):
     c14.c14_4(facts, res, "C05-order")
     c14.c14_8(facts, res, "C05-order-v")
     import staleidx
-    staleidx.rule(facts, res, "C05-order-i", lambda f: f["crate"] in ("xml_info", "xml_dom"), floor=7)
+    staleidx.rule(facts, res, "C05-order-i", lambda f: f["crate"] in ("xml_info", "xml_dom"), floor=5)
     # operators and the function library are part of "the value XPath 1.0 prescribes": same rules as C09
     from props import c09
     table = c09.r09_1(facts, res)
